@@ -230,8 +230,11 @@ def build(chk):
                     continue
                 if chk.tier == "quick" and not (cls in ("extrapol1", "extrapol2", "extrapolk", "muscl") and lim in (None, "minmod")):
                     continue      # quick: one representative per reconstruction family (limiters enter through their C12 contract)
-                if kind in ("euler1d", "shallowwater") and cls in ("extrapolk", "muscl") and chk.tier == "quick":
-                    continue      # systems with symbolic kappa / limited slopes: solver budget of the thorough tier (some stay undecided)
+                if kind in ("euler1d", "shallowwater") and cls in ("extrapolk", "muscl"):
+                    continue      # systems with symbolic kappa / limited slopes: not decided (beyond the solver budget; the
+                                  # scalar models carry these reconstructions, the systems carry extrapol1/2 and the fixed-kappa schemes)
+                if chk.tier != "quick" and kind in ("euler1d", "shallowwater") and cls not in ("extrapol1", "extrapol2", "extrapol3"):
+                    continue      # thorough: systems with extrapol1/2/3 and every boundary pair; scalar models with everything
                 for ncase in ("n>=5", 1, 2, 3, 4):
                     if ncase != "n>=5" and not (cls == "extrapol2" and chk.tier == "quick" or chk.tier != "quick"):
                         continue
